@@ -985,4 +985,200 @@ theorem Spec.lfHistory_prefix : ∀ (x y : List Spec.Event) (d : Option Spec.Doc
       simp only [hs] at h2
       exact ih y d1 h2
 
+/-! ### Workspaces: several documents, renames -/
+
+theorem agree_none_none : Agree none none := by intro d hd; cases hd
+
+theorem wstep_agree (srv : Impl.Store) (ed ed' : Spec.Store) (e : Impl.WEvent)
+    (hag : AgreeAll srv ed)
+    (hg : Spec.lfWEvent ed (encodeWEvent e) = true)
+    (hstep : Spec.wstep ed (encodeWEvent e) = some ed') :
+    AgreeAll (Impl.wstep srv e) ed' := by
+  cases e with
+  | doc u e =>
+    simp only [encodeWEvent, Spec.wstep] at hstep
+    simp only [encodeWEvent, Spec.lfWEvent] at hg
+    cases hs : Spec.step (ed u) (encodeEvent e) with
+    | none => simp [hs] at hstep
+    | some d1 =>
+      simp [hs] at hstep
+      subst hstep
+      intro v
+      by_cases hv : v = u
+      · subst hv
+        simpa [Impl.wstep, Impl.Store.set, Spec.Store.set] using step_agree _ _ _ e (hag v) hg hs
+      · simpa [Impl.wstep, Impl.Store.set, Spec.Store.set, hv] using hag v
+  | renamed o n disk =>
+    simp only [encodeWEvent, Spec.wstep] at hstep
+    cases heo : ed o with
+    | some de =>
+      -- the editor has the document open: the server moves the entry as it is
+      obtain ⟨d, hsrv, h1, h2, hopen, h3⟩ := (by simpa [heo, Agree] using hag o :
+        ∃ d, srv o = some d ∧ encode16 d.text = de.units ∧ d.version = de.version ∧
+          d.isOpen = true ∧ d.analysed = d.text)
+      simp only [heo] at hstep
+      split at hstep
+      · cases hstep
+        intro v
+        simp only [Impl.wstep, hsrv, hopen, if_true, Impl.Store.set, Spec.Store.set]
+        by_cases hvn : v = n
+        · simp only [hvn, if_true]
+          exact ⟨_, rfl, h1, h2, rfl, rfl⟩
+        · simp only [hvn, if_false]
+          by_cases hvo : v = o
+          · simp only [hvo, if_true]; exact agree_none_none
+          · simp only [hvo, if_false]; exact hag v
+      · cases hstep
+    | none =>
+      simp only [heo] at hstep
+      cases hstep
+      -- not open in the editor: the old entry goes, the new path is registered from disk
+      have hwc : ∀ (s : Option Impl.Doc) (x : Option Spec.Doc), Agree s x →
+          Agree (Impl.step s (.watchedChanged disk)) x := by
+        intro s x hx
+        exact step_agree s x x (.watchedChanged disk) hx (by simp [encodeEvent, Spec.lfEvent])
+          (by simp [encodeEvent, Spec.step])
+      intro v
+      cases hso : srv o with
+      | none =>
+        simp only [Impl.wstep, hso, Impl.Store.set]
+        by_cases hvn : v = n
+        · simp only [hvn, if_true]; exact hwc _ _ (hag n)
+        · simp only [hvn, if_false]; exact hag v
+      | some d =>
+        have hclosed : d.isOpen = false := by
+          have := hag o
+          rw [heo, hso] at this
+          exact this d rfl
+        have hw : Impl.wstep srv (.renamed o n disk) =
+            (srv.set o none).set n (Impl.step ((srv.set o none) n) (.watchedChanged disk)) := by
+          simp [Impl.wstep, hso, hclosed]
+        rw [hw]
+        by_cases hvn : v = n
+        · subst hvn
+          by_cases hno : v = o
+          · subst hno
+            simp only [Impl.Store.set, if_true]
+            rw [heo]
+            exact hwc none none agree_none_none
+          · simp only [Impl.Store.set, if_true, hno, if_false]
+            exact hwc _ _ (hag v)
+        · by_cases hvo : v = o
+          · subst hvo
+            simp only [Impl.Store.set, hvn, if_false, if_true]
+            rw [heo]; exact agree_none_none
+          · simp only [Impl.Store.set, hvn, hvo, if_false]
+            exact hag v
+
+theorem wrun_agree : ∀ (evs : List Impl.WEvent) (srv : Impl.Store) (ed ed' : Spec.Store),
+    AgreeAll srv ed →
+    Spec.lfWHistory ed (evs.map encodeWEvent) = true →
+    Spec.wrun ed (evs.map encodeWEvent) = some ed' →
+    AgreeAll (Impl.wrun srv evs) ed' := by
+  intro evs
+  induction evs with
+  | nil =>
+    intro srv ed ed' hag _ hrun
+    simp [Spec.wrun] at hrun
+    subst hrun
+    exact hag
+  | cons e es ih =>
+    intro srv ed ed' hag hg hrun
+    simp only [List.map_cons, Spec.wrun] at hrun
+    simp only [List.map_cons, Spec.lfWHistory, Bool.and_eq_true] at hg
+    cases hstep : Spec.wstep ed (encodeWEvent e) with
+    | none => simp [hstep] at hrun
+    | some ed1 =>
+      simp only [hstep] at hrun hg
+      exact ih _ ed1 ed' (wstep_agree srv ed ed1 e hag hg.1 hstep) hg.2 hrun
+
+/-! ### Token deltas -/
+
+theorem lcp_le_left {α : Type} [DecidableEq α] : ∀ (a b : List α), Impl.lcp a b ≤ a.length := by
+  intro a
+  induction a with
+  | nil => intro b; simp [Impl.lcp]
+  | cons x xs ih =>
+    intro b
+    cases b with
+    | nil => simp [Impl.lcp]
+    | cons y ys =>
+      simp only [Impl.lcp]
+      split
+      · have := ih ys; simp; omega
+      · simp
+
+theorem lcp_le_right {α : Type} [DecidableEq α] : ∀ (a b : List α), Impl.lcp a b ≤ b.length := by
+  intro a
+  induction a with
+  | nil => intro b; simp [Impl.lcp]
+  | cons x xs ih =>
+    intro b
+    cases b with
+    | nil => simp [Impl.lcp]
+    | cons y ys =>
+      simp only [Impl.lcp]
+      split
+      · have := ih ys; simp; omega
+      · simp
+
+/-- The first `k ≤ lcp a b` elements agree. -/
+theorem take_of_le_lcp {α : Type} [DecidableEq α] :
+    ∀ (a b : List α) (k : Nat), k ≤ Impl.lcp a b → a.take k = b.take k := by
+  intro a
+  induction a with
+  | nil => intro b k h; simp [Impl.lcp] at h; simp [h]
+  | cons x xs ih =>
+    intro b k h
+    cases b with
+    | nil => simp [Impl.lcp] at h; simp [h]
+    | cons y ys =>
+      cases k with
+      | zero => simp
+      | succ k =>
+        simp only [Impl.lcp] at h
+        split at h
+        · rename_i hxy
+          subst hxy
+          simp [ih ys k (by omega)]
+        · omega
+
+/-- The last `k ≤ lcp a.reverse b.reverse` elements agree. -/
+theorem drop_of_le_lcp_reverse {α : Type} [DecidableEq α] (a b : List α) (k : Nat)
+    (h : k ≤ Impl.lcp a.reverse b.reverse) :
+    a.drop (a.length - k) = b.drop (b.length - k) := by
+  have h1 := take_of_le_lcp a.reverse b.reverse k h
+  have ha : a.drop (a.length - k) = (a.reverse.take k).reverse := by
+    rw [List.take_reverse]; simp
+  have hb : b.drop (b.length - k) = (b.reverse.take k).reverse := by
+    rw [List.take_reverse]; simp
+  rw [ha, hb, h1]
+
+theorem split3 {α : Type} (l : List α) (p s : Nat) (h : p + s ≤ l.length) :
+    l.take p ++ (l.drop p).take (l.length - s - p) ++ l.drop (l.length - s) = l := by
+  have e : l.drop (l.length - s) = (l.drop p).drop (l.length - s - p) := by
+    rw [List.drop_drop]; congr 1; omega
+  rw [e, List.append_assoc, List.take_append_drop, List.take_append_drop]
+
+theorem applyTokEdits_deltaEdits {α : Type} [DecidableEq α] (previous current : List α) :
+    Spec.applyTokEdits previous (Impl.deltaEdits previous current) = current := by
+  unfold Impl.deltaEdits
+  by_cases heq : previous = current
+  · simp [heq, Spec.applyTokEdits]
+  · simp only [heq, if_false, Spec.applyTokEdits, Spec.applyTokEdit]
+    have hp1 := lcp_le_left previous current
+    have hp2 := lcp_le_right previous current
+    generalize hpre : Impl.lcp previous current = pre at *
+    generalize hsuf : min (min previous.length current.length - pre)
+      (Impl.lcp previous.reverse current.reverse) = suf
+    have hs1 : suf ≤ Impl.lcp previous.reverse current.reverse := by omega
+    have hs2 : pre + suf ≤ previous.length := by omega
+    have hs3 : pre + suf ≤ current.length := by omega
+    have htake : previous.take pre = current.take pre :=
+      take_of_le_lcp previous current pre (by omega)
+    have hdrop := drop_of_le_lcp_reverse previous current suf hs1
+    have e : pre + (previous.length - (pre + suf)) = previous.length - suf := by omega
+    rw [e, htake, hdrop]
+    exact split3 current pre suf hs3
+
 end TrustVerif.C14
